@@ -93,7 +93,9 @@ macro_rules! loop_read_vectored {
 }
 
 macro_rules! loop_read_to_end {
-    ($buf:ident, $tracker:ident : $tracker_ty:ty,loop $read_expr:expr) => {{
+    ($buf:ident, $base:ident, $tracker:ident : $tracker_ty:ty,loop $read_expr:expr) => {{
+        // The bytes are appended: reading starts behind what the buffer already holds.
+        let $base = $buf.len();
         let mut $tracker: $tracker_ty = 0;
         loop {
             if $buf.len() == $buf.capacity() {
@@ -181,7 +183,7 @@ pub trait AsyncReadExt: AsyncRead {
         &mut self,
         mut buf: t_alloc!(Vec, u8, A),
     ) -> BufResult<usize, t_alloc!(Vec, u8, A)> {
-        loop_read_to_end!(buf, total: usize, loop self.read(buf.slice(total..)))
+        loop_read_to_end!(buf, base, total: usize, loop self.read(buf.slice(base + total..)))
     }
 
     /// Read the exact number of bytes required to fill the vectored buf.
@@ -326,7 +328,7 @@ pub trait AsyncReadAtExt: AsyncReadAt {
         mut buffer: t_alloc!(Vec, u8, A),
         pos: u64,
     ) -> BufResult<usize, t_alloc!(Vec, u8, A)> {
-        loop_read_to_end!(buffer, total: u64, loop self.read_at(buffer.slice(total as usize..), pos + total))
+        loop_read_to_end!(buffer, base, total: u64, loop self.read_at(buffer.slice(base + total as usize..), pos + total))
     }
 
     /// Like [`AsyncReadExt::read_vectored_exact`], expect that it reads at a
